@@ -23,11 +23,19 @@ var errnoByName = map[string]syscall.Errno{
 // IsErrno reports whether kind names an error-returning fault (as opposed to a corruption).
 func IsErrno(kind string) bool { _, ok := errnoByName[kind]; return ok }
 
+// MaxOps bounds the recorded history of one run.
+const MaxOps = 200000
+
 // op records an operation and returns the fault planned for it, if any.
 func op(kind, path string) (seq int, f *Fault) {
 	mu.Lock()
 	defer mu.Unlock()
 	if cur == nil {
+		return -1, nil
+	}
+	if len(cur.Ops) >= MaxOps {
+		// a run that performs this many operations is spinning: stop recording (memory), no faults apply
+		cur.WorldUse["ops-beyond-recording-cap"]++
 		return -1, nil
 	}
 	seq = len(cur.Ops)
